@@ -372,6 +372,19 @@ def generate_and_run(rng, profile, max_client_ops=None):
                 do(["add", [rng.randrange(NTRACKS)], rng.choice([None, 0, max(0, sim.n // 2)])])
             for x in rng.sample(range(1, sim.next_tlid + 1), min(4, sim.next_tlid)):
                 do(["index", x])
+        if profile == "faults" and kinds.count("playable") == 0 and rng.random() < 0.7 and sim.n:
+            # nothing is playable: the same request issued twice (and three times) in a row - every
+            # one of them has to end, whatever the first one left behind
+            for which in (2, 1):
+                if rng.random() < (0.8 if which == 2 else 0.4) and not runner.trace[-1]["modes"][which]:
+                    do(["setmode", which, True])
+            for _ in range(rng.randint(2, 4)):
+                op = rng.choice([["next"], ["next"], ["previous"], ["play", None], ["play", sim.some_tlid(rng, 0.9)],
+                                 ["atf"], ["seek", 6000], ["seek", 0]])
+                for _ in range(rng.choice([2, 2, 3])):
+                    do(list(op))
+                if rng.random() < 0.3:
+                    settle()
         if profile == "settledf" and kinds.count("playable") <= 2 and rng.random() < 0.6:
             # a lonely playable entry among dead ones, random + repeat: every pass has to come back
             # to it, however the order falls (the retry budget must cover the rest of this pass and
